@@ -237,6 +237,62 @@ def run_shard(spec):
         counters["populated_paths_evaluable"] = counters.get("populated_paths_evaluable", 0) + sum(1 for x in ra if evaluable(x))
         if compare_family(paths, ra, rb) or compare_family(paths, ra, rc):
             break
+    # ---- short-lived temporaries ----------------------------------------------------------------
+    # A ref is built, used (printed, compared, hashed, looked up) and dropped; the next ref built -- which CPython
+    # typically places at the address just freed -- denotes a DIFFERENT path whose hash collides with the dropped
+    # one (hash(-1) == hash(-2), hash(k) == hash(k + 2**61 - 1)).  What a ref equals must not depend on what an
+    # earlier object at the same address was.
+    M61 = 2 ** 61 - 1
+    colliding = [(-1, -2), (-2, -1), (0, M61), (5, 5 + M61), (-7, -7 - M61), (M61, 0)]
+    ma, mb = managers()
+    uses = ("str", "repr", "eq", "hash", "dict", "all")
+    for trial in range(spec.get("temporaries", 1500)):
+        k1, k2 = rng.choice(colliding)
+        pre = rand_path(rng)
+        pre = (pre[0], pre[1][:rng.randrange(0, 3)])
+        suf = tuple(rand_path(rng)[1][:rng.randrange(0, 2)])
+        p1 = (pre[0], pre[1] + (("i", k1),) + suf)
+        p2 = (pre[0], pre[1] + (("i", k2),) + suf)
+        held1, held2 = build(mb, p1), build(mb, p2)
+        if hash(held1) == hash(held2):
+            counters["temporaries_with_colliding_hashes"] = counters.get("temporaries_with_colliding_hashes", 0) + 1
+        use = uses[trial % len(uses)]
+        t = build(ma, p1)
+        addr = id(t)
+        if use in ("str", "all"):
+            str(t)
+        if use in ("repr", "all"):
+            repr(t)
+        if use in ("eq", "all"):
+            t == held1, t == held2
+        if use in ("hash", "all"):
+            hash(t)
+        if use in ("dict", "all"):
+            {held1: 1, held2: 2}.get(t)
+        del t
+        u = build(ma, p2)
+        if id(u) == addr:
+            counters["temporaries_rebuilt_at_the_freed_address"] = counters.get("temporaries_rebuilt_at_the_freed_address", 0) + 1
+        counters["temporaries_checked"] = counters.get("temporaries_checked", 0) + 1
+        counters["pairs_compared"] = counters.get("pairs_compared", 0) + 2
+        counters["dict_lookups"] = counters.get("dict_lookups", 0) + 1
+        issues = []
+        if (u == held2) is not True or (held2 == u) is not True or (u != held2) is not False:
+            issues.append("does not equal an independently built ref of the same path")
+        if (u == held1) is not False or (held1 == u) is not False:
+            issues.append("equals a ref of the different path %s" % held1)
+        if hash(u) != hash(held2):
+            issues.append("hashes differently from an independently built ref of the same path")
+        if {held1: 1, held2: 2}.get(u) != 2:
+            issues.append("selects entry %r in {%s: 1, %s: 2}" % ({held1: 1, held2: 2}.get(u), held1, held2))
+        if {u: 3}.get(held2) != 3 or {u: 3}.get(held1) is not None:
+            issues.append("as a dict key it is found by %s: %r, by %s: %r" % (held2, {u: 3}.get(held2), held1, {u: 3}.get(held1)))
+        if issues:
+            violations.append({"what": "C06 a ref to %s built right after a temporary ref to %s was used (%s) and dropped: %s" % (
+                held2, held1, use, "; ".join(issues)), "paths": [repr(p1), repr(p2)]})
+            if len(violations) >= 5:
+                break
+        del u
     # ---- collision families -------------------------------------------------------------------
     for prefix, mk in (("bend", lambda i: "bend%d" % i), ("int", lambda i: i - 5000), ("tuple", lambda i: (i // 300, i % 300)),
                        ("nested", lambda i: "q%d" % i)):
@@ -301,6 +357,6 @@ TEXT = ("Held on every pair observed: ~2*10^5 (quick) / ~2.5*10^7 (thorough) ord
         "refs (two managers) compared with the descriptor relation for ==, hash and dict/set membership, collision "
         "families up to 10^5 keys, and structurally identical expression pairs. All pairs WITHIN each sampled family "
         "are covered; the families themselves are sampled."
-        ' Plus families over POPULATED containers whose contents differ between the two managers and change between the two builds (what a path denotes does not depend on the data).')
+        ' Plus families over POPULATED containers whose contents differ between the two managers and change between the two builds (what a path denotes does not depend on the data). Plus short-lived temporaries: a ref is used and dropped and the next ref, built at the freed address for a different path with a colliding hash, is compared with independently built refs.')
 NOTE = "Trusted: the generator's descriptors (label + typed steps) as ground truth for 'same access path'."
 TECHNIQUE = "runtime monitoring: all-pairs differential oracle over independently constructed refs (equality, hash, dict/set behaviour) against generator-side path identity"
